@@ -70,23 +70,31 @@ theorem consumer_side (c : Cfg α) (s : State α) (h : (P c).Reachable s) :
 
 /-! ## corollaries -/
 
-/-- `exactly_once_in_order`, `_partial`.  PROVED: a complete read (read() returned the end-of-data
-    marker it popped from the queue) delivered exactly `deliver c`, in order, and nothing is left
-    over — PROVIDED that at that moment (hq) every future the parser handed to push() has been
-    popped, (hp) the parser is past its last push and (hu) the parser's buffer and the unparsed
-    rest of the file are empty.  PROVED and used: the equations `parser_side`, `consumer_side`,
-    no back buffers / no held future when the end marker is returned (`Complete.invB`), all
-    buffer values well-formed (no empty nested level).
-    MISSING for the full statement (hq, hp, hu as consequences of `completed s`): the shape
-    invariant "the end marker is the last future each producer pushes, pushed by `pRunEnd` only
-    after all chunks were received (stop = false ⇒ the read thread read to the end) and the
-    buffer was flushed".  The monitors of tools/props/c05.py check exactly this on every run, and
-    the model driver reports `complete=1` for every validated complete read. -/
-theorem exactly_once_in_order_partial (c : Cfg α) (wf : c.WF) (hb : c.blobFault = none) (s : State α)
-    (h : (P c).Reachable s) (hd : completed s)
-    (hq : s.outq.called = s.outq.popped.map (fun p => p.2)) (hp : pend s = []) (hu : upstream c s = []) :
-    s.delivered = deliver c ∧ s.back = [] :=
-  Pipeline.complete_read_partial c wf hb s h hd hq hp hu
+/-- `exactly_once_in_order`: a complete read (read() returned the end-of-data marker it popped
+    from the queue) delivered exactly `deliver c`, in order, and nothing is left over — for every
+    well-formed configuration, every interleaving, every pool size / queue bound / buffer
+    capacity / chunking.  (Proof: Lemmas/PipelineComplete.lean — the end marker is the last future
+    each producer pushes, pushed by the parser only after all chunks were received and the buffer
+    was flushed; FIFO of both queues; the equations `parser_side` / `consumer_side`.) -/
+theorem exactly_once_in_order (c : Cfg α) (wf : c.WF) (hb : c.blobFault = none) (s : State α)
+    (h : (P c).Reachable s) (hd : completed s) : s.delivered = deliver c ∧ s.back = [] :=
+  Pipeline.complete_read c wf hb s h hd
+
+/-- any two complete reads of one configuration delivered the same sequence -/
+theorem complete_reads_agree (c : Cfg α) (wf : c.WF) (hb : c.blobFault = none) (s₁ s₂ : State α)
+    (h₁ : (P c).Reachable s₁) (h₂ : (P c).Reachable s₂) (d₁ : completed s₁) (d₂ : completed s₂) :
+    s₁.delivered = s₂.delivered := by
+  rw [(exactly_once_in_order c wf hb s₁ h₁ d₁).1, (exactly_once_in_order c wf hb s₂ h₂ d₂).1]
+
+/-- … also across configurations that differ in pool size, pool parsing on/off, queue bounds,
+    chunking, block structure, buffers_type, spurious wake-ups (same file, mask, projection) -/
+theorem complete_reads_agree_across_configs (c₁ c₂ : Cfg α) (wf₁ : c₁.WF) (wf₂ : c₂.WF)
+    (hb₁ : c₁.blobFault = none) (hb₂ : c₂.blobFault = none)
+    (hf : c₁.file = c₂.file) (hs : c₁.sel = c₂.sel) (ht : c₁.strip = c₂.strip) (s₁ s₂ : State α)
+    (h₁ : (P c₁).Reachable s₁) (h₂ : (P c₂).Reachable s₂) (d₁ : completed s₁) (d₂ : completed s₂) :
+    s₁.delivered = s₂.delivered := by
+  rw [(exactly_once_in_order c₁ wf₁ hb₁ s₁ h₁ d₁).1, (exactly_once_in_order c₂ wf₂ hb₂ s₂ h₂ d₂).1]
+  simp [deliver, proj, hf, hs, ht]
 
 /-- `schedule_independent`: whatever the interleaving, what a run has delivered so far (plus its
     back buffers) is a prefix of ONE sequence that depends on the file, the mask and the metadata
@@ -240,9 +248,8 @@ theorem trace_witness (c : Cfg Nat) (tr : List (Ev Nat)) (Pr : State Nat → Boo
   obtain ⟨s, hs, hp⟩ := h
   exact ⟨s, foldlM_reachable c tr _ s .init hs, hp⟩
 
-/-- the hypotheses of `exactly_once_in_order_partial` / `read_after_eof_fails` are satisfiable: a
-    complete read of `tiny` is reachable (with hq, hp, hu true in it), it delivered [7] = deliver tiny,
-    the Reader is destructed -/
+/-- the hypotheses of `exactly_once_in_order` / `read_after_eof_fails` are satisfiable: a complete
+    read of `tiny` is reachable, it delivered [7] = deliver tiny, the Reader is destructed -/
 example : ∃ s, (P tiny).Reachable s ∧
     (s.sawEod && s.destroyed && decide (s.delivered = [7]) && decide (s.results = [.ok, .data [7], .eof, .ioError])
       && decide (s.outq.called = s.outq.popped.map (fun p => p.2)) && decide (s.nested = []) && decide (s.cur = [])
